@@ -35,7 +35,7 @@ META = {
     'assumptions': ['DBusAuthenticationFailed closes the connection (checked '
                     'in C06-D3 on the shared dataReceived)'],
     'decided': ['D1 BEGIN only after OK with a GUID',
-                'D2 descriptor negotiation concludes',
+                'D2 descriptor negotiation concludes; the transport\'s descriptor support is not changed by any line before OK',
                 'D3 mechanisms in order, at most once; exhaustion closes',
                 'D4 no silent transition (incl. keyring failures are answered)',
                 'D5 unknown line closes (the command word is taken exactly: no lossy decoding, no case or whitespace normalisation), and closing '
